@@ -39,8 +39,35 @@ class Picker:
         return options[i]
 
 
+class ExtremeRandom:
+    """Stands in for the `random` module inside a driver: every draw is the largest ('max') or smallest ('min') value the
+    call can return."""
+
+    def __init__(self, mode):
+        self.mode = mode
+
+    def randint(self, a, b):
+        return b if self.mode == "max" else a
+
+    def randrange(self, a, b=None, step=1):
+        lo, hi = (0, a) if b is None else (a, b)
+        return hi - 1 if self.mode == "max" else lo
+
+    def getrandbits(self, k):
+        return (1 << k) - 1 if self.mode == "max" else 0
+
+    def random(self):
+        return 0.9999999 if self.mode == "max" else 0.0
+
+    def choice(self, seq):
+        return seq[-1] if self.mode == "max" else seq[0]
+
+    def __getattr__(self, name):
+        return getattr(random, name)
+
+
 class Sim:
-    def __init__(self, kind, picker, answer=None, dev_inst_map=None, hid_kwargs=None, register_callbacks=True, answer2=None):
+    def __init__(self, kind, picker, answer=None, dev_inst_map=None, hid_kwargs=None, register_callbacks=True, answer2=None, random_mode=None):
         assert kind in DRIVERS
         self.kind = kind
         self.picker = picker
@@ -48,6 +75,7 @@ class Sim:
         self.answers = {}              # wire index -> answer given
         self.bus = sim.Bus(self._answer)
         self.user_answer = answer
+        self.random_mode = random_mode
         # a second gateway of the same kind on a second bus, driven by a second driver instance in the same process
         self.user_answer2 = answer2
         self.bus2 = sim.Bus(lambda w_, v_, i_: self.user_answer2(w_, v_, i_, 0)) if answer2 is not None else None
@@ -85,6 +113,7 @@ class Sim:
             H.os = self.shim
             self.glob_shim = sim.GlobShim(self.shim)
             H.glob = self.glob_shim
+            H.random = ExtremeRandom(self.random_mode) if self.random_mode is not None else random
             hid_path = "/dev/dali/hid*" if self.hid_kwargs.get("glob") else "/dev/dali/hid"
             if self.kind == "tridonic":
                 self.dev = sim.TridonicUsb(w, p, self.bus)
